@@ -56,8 +56,8 @@ def c_op(o):
         return "LCleanC %s" % cz(o["ttl"])
     if k == "rread":
         return "LRRead %s %s %s %s %s" % (coq_bool(o["unc"]), cz(o["start"]), cz(o["stop"]), coq_bool(o["found"]), c_list([c_rec(r) for r in (o.get("recs") or [])]))
-    if k == "cleanroll":
-        return "LCleanRoll %s %s" % (cz(o["ttl"]), c_list(["(%s, %s, %s)" % (
+    if k in ("cleanroll", "cleancroll"):
+        return "%s %s %s" % ("LCleanRoll" if k == "cleanroll" else "LCleanCRoll", cz(o["ttl"]), c_list(["(%s, %s, %s)" % (
             c_list([c_msg(m) for m in a["msgs"]]), coq_N(a["res"]), c_list([cz(x) for x in (a.get("offs") or [])])) for a in (o.get("during") or [])]))
     if k == "clean":
         return "LClean %s" % cz(o["ttl"])
